@@ -123,3 +123,26 @@ package filter
 //@   ensures [same-object] result == c && len(c.Stores) == old(len(c.Stores)) && samearray(c.Stores, old(c.Stores))
 //@   ensures [only-from-input] forall i :: {c.Stores[i]} 0 <= i && i < len(c.Stores) ==> (exists j :: 0 <= j && j < len(c.Stores) && c.Stores[i] == old(c.Stores[j]))
 //@   modifies c.Stores[*]
+
+// Target / Source (package functions): true only when every filter of the list accepts the store.
+//@ func Target
+//@   props C10 C11
+//@   requires store != nil
+//@   ensures [all-accept] result ==> (forall k :: {filters[k]} 0 <= k && k < len(filters) ==> ufb("passT", filters[k], opt, store))
+//@   loop 1 invariant forall k :: {filters[k]} 0 <= k && k <= rangeindex ==> ufb("passT", filters[k], opt, store)
+//@   modifies ghost evres
+//@ func Source
+//@   props C10 C11
+//@   requires store != nil
+//@   ensures [all-accept] result ==> (forall k :: {filters[k]} 0 <= k && k < len(filters) ==> ufb("passS", filters[k], opt, store))
+//@   loop 1 invariant forall k :: {filters[k]} 0 <= k && k <= rangeindex ==> ufb("passS", filters[k], opt, store)
+//@   modifies ghost evres
+//@ func (Filter).Scope
+//@   assumed
+//@   modifies nothing
+//@ func (Filter).Type
+//@   assumed
+//@   modifies nothing
+//@ func (comparingFilter).GetSourceStoreID
+//@   assumed
+//@   modifies nothing
